@@ -114,7 +114,7 @@ Definition step_state (st : hstate) (o : op) (ok : bool) : hstate :=
   end.
 
 (* crash points: 0 before output, 1 mid line, 2 after the line, 3 idle, 4 in a unary call, 5 in a stream, 6 broker id issued
-   (host dials), 7 dial promised (host accepts), 8 during stdio *)
+   (host dials), 7 dial promised (host accepts), 8 during stdio, 9 while many broker negotiations of the host are in flight *)
 (* phase 1 = in flight when the plugin died, phase 2 = issued afterwards *)
 Definition allowed (pr : proto) (point : Z) (phase : Z) (st : hstate) (o : op) : bool * bool :=
   if Z.eqb phase 0 then (true, false)
